@@ -45,6 +45,9 @@ type Case struct {
 	KeyOff bool `json:"key_off,omitempty"`
 	Code bool  `json:"code"` // use Code* wrappers instead of Put*/Get*
 	Vals []Val `json:"vals"`
+	// Bytes: strings are handed to PutStringBytes as back-to-back sub-slices of ONE scratch buffer holding all the
+	// case's strings (the allocation-free use that API exists for); the buffer must come back unchanged
+	Bytes bool `json:"bytes,omitempty"`
 }
 
 func (v Val) str() string {
@@ -261,8 +264,31 @@ func runCase(c Case) (string, stats) {
 	msg := message.NewMessageForStream(A)
 	var want []byte
 	var bounds []int // value boundaries in the plaintext
+	var scratch []byte
+	if c.Bytes {
+		for _, v := range c.Vals {
+			if v.T == "string" {
+				scratch = append(scratch, v.str()...)
+			}
+		}
+	}
+	scratchBefore := append([]byte(nil), scratch...)
+	off := 0
 	for i, v := range c.Vals {
-		if err := put(msg, v, c.Code); err != nil {
+		var err error
+		if c.Bytes && v.T == "string" {
+			x := v.str()
+			if k := strings.IndexByte(x, 0); k >= 0 {
+				// (a NUL ends the string on the wire: the slice handed over stops there, as PutString would)
+				err = msg.PutStringBytes(kit.Bg, scratch[off:off+k])
+			} else {
+				err = msg.PutStringBytes(kit.Bg, scratch[off:off+len(x)])
+			}
+			off += len(x)
+		} else {
+			err = put(msg, v, c.Code)
+		}
+		if err != nil {
 			return fmt.Sprintf("encoding value %d (%s) failed: %v", i, v.T, err), st
 		}
 		want = append(want, v.ref(enc)...)
@@ -270,6 +296,9 @@ func runCase(c Case) (string, stats) {
 	}
 	if err := msg.FinishMessage(kit.Bg); err != nil {
 		return "FinishMessage: " + err.Error(), st
+	}
+	if !bytes.Equal(scratch, scratchBefore) {
+		return "the encoder changed the caller's buffer (strings handed over as sub-slices of one scratch buffer): " + kit.FirstDiff(scratchBefore, scratch), st
 	}
 	// --- oracle 1: layout ---
 	var got []byte
@@ -507,6 +536,7 @@ func genVal(t *rapid.T, allowHuge bool) Val {
 func genCase(t *rapid.T) Case {
 	c := Case{AES: rapid.Bool().Draw(t, "aes"), Code: rapid.IntRange(0, 3).Draw(t, "code") == 0}
 	c.KeyOff = c.AES && rapid.IntRange(0, 3).Draw(t, "keyoff") == 0
+	c.Bytes = !c.Code && rapid.IntRange(0, 2).Draw(t, "bytes") == 0
 	n := rapid.IntRange(1, 12).Draw(t, "n")
 	huge := rapid.IntRange(0, 39).Draw(t, "hugecase") == 0
 	for i := 0; i < n; i++ {
